@@ -60,8 +60,9 @@ class Infeasible(Exception):
 
 
 class Obligation:
-    def __init__(self, name, hyps, goal, meta=None):
+    def __init__(self, name, hyps, goal, meta=None, opt=None):
         self.name, self.hyps, self.goal, self.meta = name, list(hyps), goal, meta or {}
+        self.opt = list(opt or [])       # optional hypotheses (type invariants tried only when needed)
 
 
 class Path:
@@ -73,11 +74,26 @@ class Path:
         self.explorer = explorer
         self.notes = []
         self.spec_depth = 0
+        self.opt = []            # (group, z3 Bool): optional hypotheses, e.g. the SO(3) invariant
 
     # -- assumptions --------------------------------------------------------
     def assume(self, c):
         if isinstance(c, Sym):
-            self.conds.append(V._bool_term(c))
+            t = V._bool_term(c)
+            # split top-level conjunctions (helps the relevance filter)
+            stack = [t]
+            while stack:
+                x = stack.pop()
+                if z3.is_and(x):
+                    stack.extend(reversed(x.children()))
+                else:
+                    self.conds.append(x)
+        elif not c:
+            raise Infeasible()
+
+    def assume_optional(self, group, c):
+        if isinstance(c, Sym):
+            self.opt.append((group, V._bool_term(c)))
         elif not c:
             raise Infeasible()
 
@@ -86,7 +102,7 @@ class Path:
             g = V._bool_term(goal)
         else:
             g = z3.BoolVal(bool(goal))
-        self.obligations.append(Obligation(name, self.conds, g, meta))
+        self.obligations.append(Obligation(name, self.conds, g, meta, [c for _, c in self.opt]))
 
     # -- branching ---------------------------------------------------------
     def branch(self, c):
@@ -783,6 +799,11 @@ class Interp:
 
     # -- attribute access --------------------------------------------------
     def getattr(self, obj, name):
+        if getattr(obj, "_pyvc_native", False):
+            try:
+                return getattr(obj, name)
+            except AttributeError:
+                raise PyRaise(self.make_exc("AttributeError", f"{obj!r} has no attribute {name}"))
         if isinstance(obj, Obj):
             if name in obj.attrs:
                 return obj.attrs[name]
@@ -1315,6 +1336,10 @@ class Interp:
                 mm = self.stubs.get("numpy.matmul")
                 return mm(a, b)
             return A.pointwise(op, a, b)
+        if is_num(a) and is_num(b) and op in ("&", "|"):
+            return V.sand(a, b) if op == "&" else V.sor(a, b)
+        if getattr(a, "_pyvc_native", False) and op == "*":
+            return a * b
         if is_num(a) and is_num(b):
             if self.safety and not self.spec and op in ("/", "//", "%") and isinstance(b, Sym):
                 self.path.oblige(f"safety.div@L{self.lineno}", V.compare("!=", b, 0), {"line": self.lineno})
